@@ -397,7 +397,7 @@ def cases_from_tlc(ctx: Ctx, n: int) -> list[dict]:
                 om = {}
                 for k, M in enumerate(N["M"]):
                     e = om.setdefault(nm[M["t"]], {"factors": [], "reactants": []})
-                    e["factors"].append(f"fac{k} - 2.0 * Tgas")
+                    e["factors"].append(f"fac{k} - 20.0 * Tgas" if k % 2 else f"10.0 * fac{k} - 2.0 * Tgas")   # (literals a text filter could mangle)
                     e["reactants"].append([nm[x] for x in M["d"]])
                 desc["ode_modifier"] = om
             if N["H"]:
@@ -466,7 +466,7 @@ def random_cases(rng: random.Random, n: int) -> list[dict]:
                 t = rng.choice(plist)
                 e = om.setdefault(t, {"factors": [], "reactants": []})
                 deps = [rng.choice(plist) for _ in range(rng.choice([0, 1, 1, 2, 2, 3]))]
-                e["factors"].append(rng.choice([f"mf{k}", f"-mf{k} + kads", f"2.0 * mf{k} - zeta / 3.0"]))
+                e["factors"].append(rng.choice([f"mf{k}", f"-mf{k} + kads", f"2.0 * mf{k} - zeta / 3.0", f"-20.0 * mf{k}", f"100.0 * mf{k} + 0.0 * kads"]))
                 e["reactants"].append(deps)
             desc["ode_modifier"] = om
         out.append(desc)
